@@ -41,6 +41,7 @@ Inductive pc :=
 | PIdle                          (* current == NO_TASK: premature launch, then get_task  *)
 | PIdleFetch
 | PInner (cur : option task)     (* at      while (current != NO_TASK)                   *)
+| PEnq (ks : list (nat * task))  (* after execute + unlock + free: adding the new tasks to their queues, one by one *)
 | PFetchInner                    (* after a task: current = scheduler.get_task()         *)
 | PCheck1                        (* about to read buffers.is_empty()                     *)
 | PCheck2 (e : bool)             (* about to read num_photon_done == N                   *)
@@ -165,10 +166,12 @@ Section Model.
       (s2, k1 ++ k2)
     end.
 
-  Fixpoint enqueue_all (s : st) (qsel : nat -> nat) (n : nat) (ks : list task) : st :=
+  (* queue of each new task: re-emission and flush tasks go to the shared queue, traversal tasks to the
+     queue of the thread that owns the target subgrid *)
+  Fixpoint assign_queues (qsel : nat -> nat) (n : nat) (ks : list task) : list (nat * task) :=
     match ks with
-    | [] => s
-    | k :: r => enqueue_all (enqueue s (match k with TReemit _ _ => 0 | TFlush _ => 0 | _ => S (qsel n) end) k) qsel (S n) r
+    | [] => []
+    | k :: r => ((match k with TReemit _ _ => 0 | TFlush _ => 0 | _ => S (qsel n) end), k) :: assign_queues qsel (S n) r
     end.
 
   Definition add_done (s : st) (ps : list nat) : st :=
@@ -252,7 +255,8 @@ Section Model.
   Inductive label :=
   | LFetch (t i : nat)               (* a get_task that returns queue entry i *)
   | LFetchNone (t : nat)             (* a get_task that returns NO_TASK *)
-  | LRun (t : nat) (r : runinfo)     (* execute + unlock + free + enqueue the new tasks *)
+  | LRun (t : nat) (r : runinfo)     (* execute + unlock + free *)
+  | LEnq (t : nat)                   (* add the next new task to its queue / all added: go on to the next fetch *)
   | LPremature (t sg d q : nat)      (* PrematureLaunch activates the buffer in slot (sg, d) *)
   | LPrematureSkip (t : nat)
   | LHead (t : nat)                  (* evaluate the outer loop condition *)
@@ -266,10 +270,13 @@ Section Model.
     && forallb (fun p => match p with
                          | PHead (Some (TTrav _ _)) | PHead (Some (TReemit _ _))
                          | PInner (Some (TTrav _ _)) | PInner (Some (TReemit _ _)) => false
+                         | PEnq l => forallb (fun e => match snd e with TTrav _ _ | TReemit _ _ => false | _ => true end) l
                          | _ => true end) (thr s).
 
   (* one transition; None = the label is not enabled in this state *)
-  Definition step (s : st) (l : label) : option st :=
+  (* [lg flag has_task]: the condition of the outer worker loop;  [tg empty done]: the termination test.
+     Both are parameters so that the conditions regenerated from the source (C01_Gen.v) can be plugged in. *)
+  Definition step_g (lg : bool -> bool -> bool) (tg : bool -> nat -> bool) (s : st) (l : label) : option st :=
     match l with
     | LFetch t i =>
         match get_thr s t with
@@ -291,7 +298,7 @@ Section Model.
     | LHead t =>
         match get_thr s t with
         | Some (PHead cur) =>
-            if flag s || (fixed_loop && match cur with Some _ => true | None => false end)
+            if lg (flag s) (match cur with Some _ => true | None => false end)
             then Some (set_thr s t (match cur with None => PIdle | Some k => PInner (Some k) end))
             else Some (set_thr s t PExit)        (* pinned loop: a fetched task [cur] is dropped here *)
         | _ => None
@@ -320,9 +327,15 @@ Section Model.
         match get_thr s t with
         | Some (PInner (Some k)) =>
             match run_body s k r with
-            | Some (s1, ks) => Some (set_thr (enqueue_all (drop_dep s1 (dep_of k)) (r_qsel r) 0 ks) t PFetchInner)
+            | Some (s1, ks) => Some (set_thr (drop_dep s1 (dep_of k)) t (PEnq (assign_queues (r_qsel r) 0 ks)))
             | None => None
             end
+        | _ => None
+        end
+    | LEnq t =>
+        match get_thr s t with
+        | Some (PEnq ((q, k) :: rest)) => Some (set_thr (enqueue s q k) t (PEnq rest))
+        | Some (PEnq []) => Some (set_thr s t PFetchInner)
         | _ => None
         end
     | LCheck1 t =>
@@ -330,12 +343,16 @@ Section Model.
     | LCheck2 t =>
         match get_thr s t with
         | Some (PCheck2 e) =>
-            if e && (done s =? NREQ)
+            if tg e (done s)
             then Some (set_thr (mkSt (queue s) (active s) (local s) (slocks s) (blocks s) (cont_rem s) (flushed s) (done s) (term s) (fresh s) false (thr s)) t (PHead None))
             else Some (set_thr s t PElse)
         | _ => None
         end
     end.
+
+  Definition loop_guard (f h : bool) : bool := f || (fixed_loop && h).
+  Definition term_guard (e : bool) (d : nat) : bool := e && (d =? NREQ).
+  Definition step : st -> label -> option st := step_g loop_guard term_guard.
 
   Fixpoint run (s : st) (ls : list label) : option st :=
     match ls with
